@@ -61,6 +61,10 @@ CHECKS = {
    text="Each captured protected record of an established session is presented to the real receiver in dozens of mutated forms (bit, field, truncation, extension, splice and cross-session mutants) before and after the genuine copy, for every suite family, CID layout and both protocol versions; the independent reference model, not the library, decides whether a mutant still authenticates, and the receiver's socket and Read are watched after every single injection.",
    note="Mutants that stop claiming protection (epoch rewritten to 0, type rewritten to change_cipher_spec) are held only to 'Read returns only what was written': the statement's vanish clause does not cover them. Mutants are sampled per record, not exhaustively enumerated over all bit positions.",
    technique="deterministic simulation: per-record mutant injection judged by an independent reference decoder"),
+ "C07": dict(level="exploration", design="§5 C07",
+   text="Seeded exploration of Write racing handshake completion, retransmission, alerts and Close (yield-point scheduler, lossy handshakes, forged cleartext application records), with every secret a unique marker that is searched for in every datagram either endpoint hands to its socket, plus wire-level rules about what may appear unprotected in each protocol version and a differential check that the exporter is not a function of the cleartext handshake.",
+   note="The exporter clause is a per-session differential check against a fixed family of public-only derivations, not a proof of secrecy; its RFC value for DTLS 1.2 is checked under C10. Alerts are not among the items the statement lists and may be emitted in clear.",
+   technique="deterministic simulation: seeded schedule and fault exploration with marker scanning of all emitted datagrams"),
 }
 
 NOT_YET = {}
